@@ -124,7 +124,7 @@ def cases(seed, tier):
         mode = rng.choice(['text', 'text', 'json', 'policy', 'policy_json'])
         opts = {'text': rng.choice([['-n'], ['-n', '-b'], ['-n', '-v'], []]), 'json': rng.choice([['-j'], ['-jj']]), 'policy': ['-n', '-P', '{DIR}/policy.txt'],
                 'policy_json': ['-j', '-P', '{DIR}/policy.txt']}[mode]
-        c = {'targets': targets, 'mode': mode, 'opts': opts, 'threads': rng.choice([1, 1, 2, k, 32]), 'sched': gen.rand_sched(rng, preempt=(tier == 'thorough' and i % 4 == 0) or (tier == 'quick' and i % 16 == 0)),
+        c = {'targets': targets, 'mode': mode, 'opts': opts, 'threads': rng.choice([1, 1, 2, k, 32]), 'sched': gen.rand_sched(rng, preempt=(tier == 'thorough' and i % 4 == 0) or (tier == 'quick' and i % 5 == 0)),
              'net': {'rtt_us': rng.choice([100, 300, 3000])}, 'pseed': rng.getrandbits(32), 'timeout': 2}
         if mode.startswith('policy'):
             c['policy_text'] = POLICY
